@@ -35,7 +35,8 @@ CHECK_DEADLOCK FALSE
             t = o['targets']
             if t.get('other'):
                 raise C.Inconclusive('answer outside the projection: %s' % t['other'])
-            recs.append(dict(w=c['w'], q=c['q'], targets=dict(error=t['error'], active=t['active'], stats=t['stats'], dropped=t['dropped']), runtime=o['runtime']))
+            recs.append(dict(w=c['w'], q=c['q'], targets=dict(error=t['error'], active=t['active'], stats=t['stats'], dropped=t['dropped']), runtime=o['runtime'],
+                             mutated=bool(t.get('mutated'))))
         C.write_ndjson(obs_f, recs)
         ev = C.tlc(sd, 'CoordAPIEval', 'eval.cfg', cfg_text='', workers=1, timeout=3000, heap='12g')
         C.require_ok(ev, 'CoordAPIEval')
